@@ -1,6 +1,7 @@
 #!/usr/bin/env python3
 """Writes MANIFEST.json from the table below (kept as code so it stays valid and consistent)."""
-import json
+import json, subprocess
+SOURCE_COMMITS = [l.split()[0] for l in subprocess.run(["git","-C","/repo","log","--format=%h %s"],capture_output=True,text=True).stdout.splitlines() if " verif hook" in l]
 CHECKS = {}
 NA = {}
 def check(pid, category, text, note, technique, design_ref, engine, replay=True):
@@ -28,6 +29,12 @@ check("C13", "model_checking",
       "explicit-state bounded-exhaustive history enumeration of the real object against a reference model (replay-based BFS + un-merged tree)",
       "DESIGN.md §5 C13", "mc")
 
+check("C12", "model_checking",
+      "loom (DPOR) explores every interleaving, up to 3 (quick) / 4 (thorough) preemptions, of the real wait_for_credit / wait_for_reconnect with 1-3 signalling threads (all pairs of 10 credit scripts and 8 reconnect scripts; all triples in thorough) and a virtual-clock thread. A missed wake-up leaves the waiter blocked with all other threads finished (loom deadlock); every returned value is checked against all sequential orders of the signalling operations; timeouts must occur at, not before and not after, the virtual deadline.",
+      "Sequentially consistent interleavings at lock/condvar granularity within the preemption bound; timed waits wake only on notification or virtual-clock expiry (no other spurious wake-ups); std's Condvar itself is trusted.",
+      "stateless model checking of the real code under loom's controlled scheduler (preemption-bounded DPOR) with a linearization oracle",
+      "DESIGN.md §5 C12", "lm")
+
 ALL = [f"C{i:02d}" for i in range(1, 20)]
 for pid in ALL:
     if pid not in CHECKS:
@@ -40,7 +47,7 @@ manifest = dict(
         guard="--cfg repe_verif (scripted transports, accessors) and --cfg repe_verif_loom (std->loom shadow)",
         enable="RUSTFLAGS=\"--cfg repe_verif\" for the mc engine, RUSTFLAGS=\"--cfg repe_verif_loom\" for the lm (loom) engine; set by engines/dispatch",
         baseline_off_cmd="cd /repo && cargo nextest run --workspace --no-fail-fast --test-threads 8 --offline || cargo test --workspace --no-fail-fast --offline",
-        source_commits=[],
+        source_commits=SOURCE_COMMITS,
         add_only=True,
     ),
     engines=[
